@@ -251,6 +251,12 @@ def check(ctx):
             for e, tid, v in ((ce["ea"], 257, 1), (ce["eb"], 257, 2), (ce["ea"], 256, 2), (ce["ec"], 257, 1)):
                 ann.append({"exp": e, "buf": c04.tpl_msg(proto, tid, v)})
                 probes.append(({"exp": e, "buf": c04.data_msg(proto, tid)}, v))
+            # ... and a pair of which the first-learnt exporter has taken its template back (an entry without fields is what
+            # is left of it): the second exporter's template sits behind it and is found, before the restart and after
+            ann.append({"exp": ce["ea"], "buf": c04.tpl_msg(proto, 300, 1)})
+            ann.append({"exp": ce["eb"], "buf": c04.tpl_msg(proto, 300, 2)})
+            ann.append({"exp": ce["ea"], "buf": c04.tpl_msg(proto, 300, 0)})
+            probes.append(({"exp": ce["eb"], "buf": c04.data_msg(proto, 300)}, 2))
         for k, v in enumerate((3, 4, 5)):
             ann.append({"exp": exps[k % len(exps)], "buf": c04.tpl_msg(proto, 2000 + k, v)})
             probes.append(({"exp": exps[k % len(exps)], "buf": c04.data_msg(proto, 2000 + k)}, v))
